@@ -1,6 +1,7 @@
 package rules
 
 import (
+	"fmt"
 	"go/token"
 	"go/types"
 	"strings"
@@ -303,6 +304,24 @@ func c05R2(p *core.Prog, r *core.Report) {
 			}
 		}
 	}
+	if !qOK {
+		// any other way of building the query (url.Values{…}.Encode()): the String() of the computed
+		// digest flows into the value stored into a URL's RawQuery
+		for _, f := range sortedFuncs(scope) {
+			core.Calls(f, func(c ssa.CallInstruction) {
+				cal := core.Callee(c)
+				call, isCall := c.(*ssa.Call)
+				if !isCall || cal == nil || cal.Name() != "String" || !isDigestType(core.CallArg(c, 0).Type()) {
+					return
+				}
+				recv := core.CallArg(c, 0)
+				verified := len(dig) > 0 && !reach(dig) && (dependsOnField(recv, modPath("types/descriptor"), "Descriptor", "Digest"))
+				if (fromDig(recv) || verified) && reachesRawQuery(call) {
+					qOK = true
+				}
+			})
+		}
+	}
 	r.Check(qOK, rule, fname, "digest parameter from the digester", p.Pos(put.Pos()), "the digest= parameter of the closing PUT is the digest computed over the bytes that were sent")
 	r.Check(dOK, rule, fname, "returned digest from the digester", p.Pos(put.Pos()), "the descriptor returned on success carries the computed digest")
 }
@@ -336,7 +355,12 @@ func c05R3(p *core.Prog, r *core.Report) {
 			seek = c.(ssa.Instruction)
 		}
 	})
-	if full == nil || chunked == nil || seek == nil {
+	helperRewind := false
+	if full != nil && chunked != nil && seek == nil {
+		// the rewind may be a predicate helper: `if !rewind(src) { cancel; return }`
+		helperRewind = c05R3Helper(p, r, rule, fn, full, chunked)
+	}
+	if full == nil || chunked == nil || (seek == nil && !helperRewind) {
 		r.Undecided(rule, fname, "upload steps", p.Pos(fn.Pos()), "single PUT, chunked upload and rewind not all found")
 		return
 	}
@@ -413,42 +437,44 @@ func c05R3(p *core.Prog, r *core.Report) {
 		return false
 	}
 	// (a) chunked only via the Seek
-	ok := true
-	for _, e := range errEdgesOf(fn, full) {
-		if (core.Reach{Stop: func(in ssa.Instruction) bool { return in == seek }}).FromEdge(e[0], e[1])[chunked] {
-			ok = false
-		}
-	}
-	r.Check(ok && len(errEdgesOf(fn, full)) > 0, rule, fname, "fall-back passes the rewind", p.Pos(chunked.Pos()), "from the failure edge of the single PUT the chunked upload is only reachable through Seek(0, SeekStart) on the source")
-	// (b) seek failure edges do not reach chunked
-	sc := seek.(*ssa.Call)
-	ok = len(errEdgesOf(fn, sc)) > 0
-	for _, e := range errEdgesOf(fn, sc) {
-		if (core.Reach{}).FromEdge(e[0], e[1])[chunked] {
-			ok = false
-		}
-	}
-	// offset != 0 edge
-	off := mismatchEdges(fn, func(bo *ssa.BinOp) bool {
-		if !isConstZero(bo.Y) {
-			return false
-		}
-		for _, o := range core.Origins(bo.X, core.SliceOpts{}) {
-			if o.Kind == core.OCall && o.Call == sc && o.Res == 0 {
-				return true
+	if !helperRewind {
+		ok := true
+		for _, e := range errEdgesOf(fn, full) {
+			if (core.Reach{Stop: func(in ssa.Instruction) bool { return in == seek }}).FromEdge(e[0], e[1])[chunked] {
+				ok = false
 			}
 		}
-		return false
-	})
-	if len(off) == 0 {
-		ok = false // the position reached by the rewind is not compared with 0
-	}
-	for _, e := range off {
-		if (core.Reach{}).FromEdge(e[0], e[1])[chunked] {
-			ok = false
+		r.Check(ok && len(errEdgesOf(fn, full)) > 0, rule, fname, "fall-back passes the rewind", p.Pos(chunked.Pos()), "from the failure edge of the single PUT the chunked upload is only reachable through Seek(0, SeekStart) on the source")
+		// (b) seek failure edges do not reach chunked
+		sc := seek.(*ssa.Call)
+		ok = len(errEdgesOf(fn, sc)) > 0
+		for _, e := range errEdgesOf(fn, sc) {
+			if (core.Reach{}).FromEdge(e[0], e[1])[chunked] {
+				ok = false
+			}
 		}
+		// offset != 0 edge
+		off := mismatchEdges(fn, func(bo *ssa.BinOp) bool {
+			if !isConstZero(bo.Y) {
+				return false
+			}
+			for _, o := range core.Origins(bo.X, core.SliceOpts{}) {
+				if o.Kind == core.OCall && o.Call == sc && o.Res == 0 {
+					return true
+				}
+			}
+			return false
+		})
+		if len(off) == 0 {
+			ok = false // the position reached by the rewind is not compared with 0
+		}
+		for _, e := range off {
+			if (core.Reach{}).FromEdge(e[0], e[1])[chunked] {
+				ok = false
+			}
+		}
+		r.Check(ok, rule, fname, "no fall-back after a failed rewind", p.Pos(seek.Pos()), "when the source cannot be rewound to offset 0 the chunked upload (which would send a stream missing its beginning) is unreachable")
 	}
-	r.Check(ok, rule, fname, "no fall-back after a failed rewind", p.Pos(seek.Pos()), "when the source cannot be rewound to offset 0 the chunked upload (which would send a stream missing its beginning) is unreachable")
 	// (c) failures cancel
 	for _, step := range []*ssa.Call{full, chunked} {
 		step := step
@@ -511,4 +537,151 @@ func isConstTrueStore(in ssa.Instruction) bool {
 	}
 	b, isC := core.ConstBool(st.Val)
 	return isC && b
+}
+
+// c05R3Helper handles the rewind written as a predicate helper of BlobPut: a bool function that
+// seeks the source to its start and reports whether that worked. It records the obligations (a) and
+// (b) of C05.R3 and reports whether such a helper was found.
+func c05R3Helper(p *core.Prog, r *core.Report, rule string, fn *ssa.Function, full, chunked *ssa.Call) bool {
+	fname := p.FuncName(fn)
+	for h := range core.Helpers(fn, 1) {
+		if h == fn {
+			continue
+		}
+		res := h.Signature.Results()
+		if res.Len() != 1 || !types.Identical(res.At(0).Type().Underlying(), types.Typ[types.Bool]) {
+			continue
+		}
+		var seek *ssa.Call
+		core.Calls(h, func(c ssa.CallInstruction) {
+			if isInvoke(c, "Seek") {
+				seek, _ = c.(*ssa.Call)
+			}
+		})
+		if seek == nil {
+			continue
+		}
+		// the call sites in BlobPut
+		var sites []*ssa.Call
+		core.Calls(fn, func(c ssa.CallInstruction) {
+			if call, ok := c.(*ssa.Call); ok && core.CalleeFn(c) == h {
+				sites = append(sites, call)
+			}
+		})
+		if len(sites) == 0 {
+			continue
+		}
+		isSite := func(in ssa.Instruction) bool {
+			for _, s := range sites {
+				if in == ssa.Instruction(s) {
+					return true
+				}
+			}
+			return false
+		}
+		// (a) from the failure of the single PUT the chunked upload is reachable only through the helper
+		okA := len(errEdgesOf(fn, full)) > 0
+		for _, e := range errEdgesOf(fn, full) {
+			if (core.Reach{Stop: isSite}).FromEdge(e[0], e[1])[chunked] {
+				okA = false
+			}
+		}
+		r.Check(okA, rule, fname, "fall-back passes the rewind", p.Pos(chunked.Pos()), "from the failure edge of the single PUT the chunked upload is only reachable through "+h.Name()+", which seeks the source to its start")
+		// (b) the helper's false result does not reach the chunked upload, and its true result implies
+		// a nil seek error and offset 0
+		okB := true
+		for _, b := range fn.Blocks {
+			ifi, ok := core.LastInstr(b).(*ssa.If)
+			if !ok {
+				continue
+			}
+			cnd, pol := core.StripNot(ifi.Cond, true)
+			call, isCall := cnd.(*ssa.Call)
+			if !isCall || !isSite(call) {
+				continue
+			}
+			falseSucc := b.Succs[1]
+			if !pol {
+				falseSucc = b.Succs[0]
+			}
+			if (core.Reach{}).FromEdge(b, falseSucc)[chunked] {
+				okB = false
+			}
+		}
+		nilErr, zeroOff := false, false
+		for _, ret := range core.Returns(h) {
+			_ = ret
+		}
+		for _, s := range sites {
+			for _, g := range core.ImpliedGuards(core.Guard{Cond: s, Polarity: true}) {
+				c, pol := core.StripNot(g.Cond, g.Polarity)
+				if x, neq, isNil := errCmpNil(c); isNil && neq != pol {
+					for _, oc := range originCalls(x) {
+						if oc == seek {
+							nilErr = true
+						}
+					}
+				}
+				if bo, ok := c.(*ssa.BinOp); ok && (bo.Op == token.EQL || bo.Op == token.NEQ) && isConstZero(bo.Y) && (bo.Op == token.EQL) == pol {
+					for _, o := range core.Origins(bo.X, core.SliceOpts{}) {
+						if o.Kind == core.OCall && o.Call == seek && o.Res == 0 {
+							zeroOff = true
+						}
+					}
+				}
+			}
+		}
+		r.Check(okB && nilErr && zeroOff, rule, fname, "no fall-back after a failed rewind", p.Pos(sites[0].Pos()),
+			fmt.Sprintf("the chunked upload is unreachable when %s reports false: %v; its true result implies a nil Seek error: %v and offset 0: %v", h.Name(), okB, nilErr, zeroOff))
+		return true
+	}
+	return false
+}
+
+// reachesRawQuery: forward data flow from v into a value stored into the RawQuery field of a URL,
+// through concatenation, net/url encoders, map and slice literals, phis and local cells.
+func reachesRawQuery(v ssa.Value) bool {
+	seen := map[ssa.Value]bool{}
+	work := []ssa.Value{v}
+	for len(work) > 0 && len(seen) < 3000 {
+		x := work[len(work)-1]
+		work = work[:len(work)-1]
+		if x == nil || seen[x] {
+			continue
+		}
+		seen[x] = true
+		refs := x.Referrers()
+		if refs == nil {
+			continue
+		}
+		for _, ref := range *refs {
+			switch y := ref.(type) {
+			case *ssa.Store:
+				if y.Val != x {
+					continue
+				}
+				if fa, ok := y.Addr.(*ssa.FieldAddr); ok && core.FieldName(fa.X.Type(), fa.Field) == "RawQuery" {
+					return true
+				}
+				work = append(work, addrBase(y.Addr))
+			case *ssa.MapUpdate:
+				if y.Value == x {
+					work = append(work, y.Map)
+				}
+			case *ssa.Call:
+				if cal := core.Callee(y); cal != nil && cal.Pkg() != nil && (cal.Pkg().Path() == "net/url" || cal.Pkg().Path() == "fmt" || cal.Pkg().Path() == "strings") {
+					work = append(work, y)
+				}
+				if b, ok := y.Call.Value.(*ssa.Builtin); ok && b.Name() == "append" {
+					work = append(work, y)
+				}
+			case ssa.Value:
+				switch y.(type) {
+				case *ssa.Phi, *ssa.Slice, *ssa.MakeInterface, *ssa.ChangeType, *ssa.Convert, *ssa.UnOp, *ssa.IndexAddr, *ssa.FieldAddr, *ssa.BinOp, *ssa.MakeMap:
+					work = append(work, y)
+				}
+			}
+		}
+	}
+	return false
 }
